@@ -525,3 +525,55 @@ func TestC02_Frames(t *testing.T) {
 		}
 	})
 }
+
+// TestC02_TransferFrames: the equality, not only the upper bound. The general oracle demands
+// "no more than the accounting allows" because several legitimate paths burn value (prepaid
+// destination fees, a self-destruct to oneself, a failed inbound transfer) and some recorded
+// findings destroy it. Here the structured cases move value only by plain in-zone transfers and
+// endowed creations inside nested frames that fail or succeed on their own (no ETX, CONVERT,
+// SELFDESTRUCT, inbound ETX): nothing can leave the zone and nothing is minted, so the sum of all
+// balances afterwards must EQUAL the sum before minus the gas charge - a debit that a reverted
+// frame fails to give back shows as destroyed value.
+func TestC02_TransferFrames(t *testing.T) {
+	const part = "transfer-frames"
+	rapid.Check(t, func(rt *rapid.T) {
+		c := evmgen.GenFrames(rt, evmgen.FramesOpts{Effects: []string{"transfer", "sstore"}, FailPctTop: 10, FailPctInner: 55})
+		o, err := c.Run()
+		if err != nil {
+			rt.Fatalf("HARNESS: %v", err)
+		}
+		rp := checkCase(rt, part, c, o)
+		executed := o.Res.Err == nil && o.Broken == "" && !o.PartialBalances
+		if executed {
+			usedFee := new(big.Int).Mul(new(big.Int).SetUint64(o.Res.Receipt.GasUsed), c.Tx.Price)
+			want := new(big.Int).Sub(o.Before.Sum, usedFee)
+			if len(o.Res.Receipt.OutboundEtxs) == 0 && want.Cmp(o.After.Sum) != 0 {
+				var changes []string
+				for a, v := range o.Before.ByAddr {
+					if w := o.After.Get(a); w.Cmp(v) != 0 {
+						changes = append(changes, fmt.Sprintf("%s: %v -> %v", a.Hex(), v, w))
+					}
+				}
+				sort.Strings(changes)
+				fp := "C02/value-destroyed/sum-below-accounting"
+				if want.Cmp(o.After.Sum) < 0 {
+					fp = "C02/value-created/sum-exceeds-bound"
+				}
+				stats.Violation(rt, part, fp, fmt.Sprintf("no value can leave or enter in this case (plain in-zone transfers and creations only): sum of balances %v -> %v, gas charge %v, difference %v; program: %s", o.Before.Sum, o.After.Sum, usedFee, new(big.Int).Sub(o.After.Sum, want), strings.Join(c.Kinds, " ")),
+					map[string]any{"case": c.Dump(), "balance_changes": changes})
+				return
+			}
+		}
+		inner := false
+		for _, k := range c.Kinds {
+			if strings.HasPrefix(k, "L1:") || strings.HasPrefix(k, "L2:") {
+				inner = true
+			}
+		}
+		labels := append([]string{}, rp.labels...)
+		if executed && inner {
+			labels = append(labels, "equality-checked-with-nested-frames")
+		}
+		stats.Case(part, strings.Join(rp.sig, ",")+"|"+strings.Join(c.Kinds, ","), rp.nontrivial, labels...)
+	})
+}
